@@ -332,4 +332,38 @@ theorem schedule_feasible [HasCeilNat K] (feas : List K → Bool) (cfg : Config 
       cases h
       exact rr_feasible feas _ infra _ st hidx hlen hrr
 
+/-! ### non-vacuity: concrete instances over ℚ on which the hypotheses hold and the algorithms run -/
+
+/-- mixed-sign predicate `|x₀ − x₁| ≤ 10 ∧ x₀ + x₁ ≤ 30`, station 0 continuous, station 1 finite -/
+def exFeas : List ℚ → Bool := fun x =>
+  decide (x.getD 0 0 - x.getD 1 0 ≤ 10) && decide (x.getD 1 0 - x.getD 0 0 ≤ 10) &&
+  decide (x.getD 0 0 + x.getD 1 0 ≤ 30)
+
+def exInfra : Infra ℚ := ⟨["a", "b"], [32, 32], [0, 8], [208, 208], [true, false], [[0, 32], [0, 8, 16, 24, 32]]⟩
+
+def exQueue : List (Session ℚ) :=
+  [⟨"a", "x", 0, 0, 9, 9, 10, 0, 0, 32⟩, ⟨"b", "y", 1, 1, 8, 8, 10, 0, 8, 32⟩]
+
+/-- greedy: the hypotheses of `greedy_feasible` hold (distinct stations; `LbOk`: station 1 is
+    finite with `lb = 8`, one of its levels); the run succeeds, the first session is held just
+    below 18 by the mixed-sign row, the second keeps level 8, and the result is feasible -/
+example : (exQueue.map (·.idx)).Nodup ∧ (8 : ℚ) ∈ levelsIn exInfra 1 8 (ubOf exInfra 5 ⟨"b", "y", 1, 1, 8, 8, 10, 0, 8, 32⟩) := by
+  decide +kernel
+
+example :
+    (match sortingAlgorithm exFeas 50 (1/100) exInfra 5 exQueue with
+     | .ok sch => exFeas sch && decide (sch.getD 1 0 = 8) && decide (17 < sch.getD 0 0) &&
+                  decide (sch.getD 0 0 ≤ 18)
+     | .error _ => false) = true := by
+  decide +kernel
+
+/-- round robin with unit levels: station 1's step to 16 is blocked by the mixed-sign row while
+    station 0 is still low (and is reverted to 8); station 0 then climbs to its top level -/
+example :
+    (match roundRobin exFeas (fun s => if s.idx = 0 then [0, 1, 2, 3, 4, 5, 6, 7, 8, 9, 10, 11, 12] else [8, 16, 24])
+        exInfra exQueue with
+     | .ok st => exFeas st.sched && decide (st.sched = [12, 8]) && st.queue.isEmpty
+     | .error _ => false) = true := by
+  decide +kernel
+
 end Acn.C07
